@@ -629,6 +629,8 @@ class Evaluator:
         for t, names in _PURE_METHODS.items():
             if isinstance(obj, t) and attr in names:
                 return getattr(obj, attr)
+        if obj is dict and attr == 'fromkeys':
+            return dict.fromkeys
         if isinstance(obj, tuple) and attr in ('major', 'minor'):
             return obj[0 if attr == 'major' else 1]
         return Unknown(f'attr {attr} of {type(obj).__name__}')
